@@ -43,6 +43,7 @@ show(const T& v) {
     if (std::isfinite(d) && d == std::floor(d)) {
         mpz_t z; mpz_init(z); mpz_set_d(z, d); std::string r = mpz_str(z); mpz_clear(z); return r;
     }
+    if (!std::isfinite(d)) return "nonfinite";
     snprintf(buf, sizeof buf, "f%.17g", d); return buf;
 }
 static std::string show(const Integer& v) { std::ostringstream o; o << v; return o.str(); }
@@ -86,8 +87,10 @@ template <> struct Mk<u128> { static u128 go(const mpz_t z) { mpz_t m; mpz_init(
 // which convert forms exist: detected, so that a removed/added form changes the output
 template <class R, class T, class = void> struct HasConv : std::false_type {};
 template <class R, class T> struct HasConv<R, T, decltype((void)std::declval<const R&>().convert(std::declval<T&>(), std::declval<const typename R::Element&>()))> : std::true_type {};
+template <class E> static typename std::enable_if<std::is_floating_point<E>::value, bool>::type finite_elt(const E& e) { return std::isfinite((double)e); }
+template <class E> static typename std::enable_if<!std::is_floating_point<E>::value, bool>::type finite_elt(const E&) { return true; }
 template <class R, class T> static typename std::enable_if<HasConv<R, T>::value, std::string>::type
-conv(const R& F, const typename R::Element& e) { T t; F.convert(t, e); return show(t); }
+conv(const R& F, const typename R::Element& e) { if (!finite_elt(e)) return "nonfinite"; T t; F.convert(t, e); return show(t); }
 template <class R, class T> static typename std::enable_if<!HasConv<R, T>::value, std::string>::type
 conv(const R&, const typename R::Element&) { return "-"; }
 
@@ -120,6 +123,7 @@ do_init(const R& F, const std::string& op, const mpz_t x) {
           << " " << conv<R, double>(F, e) << " " << conv<R, int32_t>(F, e) << " " << conv<R, uint32_t>(F, e);
     } else {   // rt: init(convert(e)) for each convert target
         o << show(e);
+        if (!finite_elt(e)) return o.str() + " nonfinite nonfinite nonfinite nonfinite";
         { Integer t; typename R::Element e2; fill<R>(e2); F.convert(t, e); F.init(e2, t); o << " " << show(e2); }
         { int64_t t; typename R::Element e2; fill<R>(e2); F.convert(t, e); F.init(e2, t); o << " " << show(e2); }
         { uint64_t t; typename R::Element e2; fill<R>(e2); F.convert(t, e); F.init(e2, t); o << " " << show(e2); }
